@@ -103,7 +103,7 @@ theorem nesting_disabled_flat (c : Conf) (hoff : c.nested = false ∨ (c.bracket
       simp [PR.bind, assemble] at hr'
       exact hr' ▸ ha
     | _ => simp [ht, PR.bind] at hr'
-  | _ => simp [Bool.false_eq_true, if_false, hT, hr'] at h
+  | _ => simp [Bool.false_eq_true, hT, hr'] at h
 
 /-- non-vacuity: `[a] <b>` with nesting off is two plain tokens -/
 example : ∃ ts, tokenize ⟨false, ['[', ']'], true, ['"']⟩ ['[', 'a', ']', ' ', '|'] = .tree ts ∧ ts.length = 2 :=
@@ -179,5 +179,48 @@ theorem dqrepr_class_exact (c : Conf) (hv : c.Valid) (hq : '"' ∈ c.quotes) (x 
   injection he with he _
   injection he with he
   exact reread_of_class x h he
+
+/-! ### tokens that are not strings of Unicode scalar values
+
+`tokenize_total` says the result is a tree of *tokens*; a token is a list of code points (`List Nat`),
+not a `Str`, because the implementation can return a Python `str` holding a lone surrogate: the
+`unicode_escape` decoder accepts the escapes `\ud800`…`\udfff` (and `\U0000d800`…), the latin-1
+re-encoding then fails and `_handleToken` keeps the decoded text.  Such a token cannot be encoded
+(`irc.reply` of it raises `UnicodeEncodeError`).  Recorded as known finding
+`C13-surrogate-escape-token`; the statement "every token is a string of Unicode scalar values"
+
+    theorem tokens_scalar (c : Conf) (hv : c.Valid) (s : Str) (ts) (h : tokenize c s = .tree ts) : AllScalar ts
+
+is FALSE on the pinned tree (witness below).  What is proved: everything the bot's own writers
+(`quote`, `dqrepr`) produce comes back as scalar-value strings. -/
+
+/-- the witness: `help "\ud800"` tokenises to `help` and a token holding the lone surrogate U+D800 -/
+theorem surrogate_escape_token :
+    tokenize ⟨true, ['[', ']'], false, ['"']⟩ ['h', 'e', 'l', 'p', ' ', '"', '\\', 'u', 'd', '8', '0', '0', '"'] =
+      .tree [.leaf (toCps ['h', 'e', 'l', 'p']), .leaf [0xD800]] ∧
+    ¬ ∃ x : Str, toCps x = [0xD800] := by
+  refine ⟨rfl, ?_⟩
+  rintro ⟨x, hx⟩
+  cases x with
+  | nil => simp [toCps] at hx
+  | cons c t =>
+    simp only [toCps, List.map_cons, List.cons.injEq] at hx
+    have hv := c.valid
+    simp only [UInt32.isValidChar, Nat.isValidChar] at hv
+    have : c.val.toNat = 0xD800 := hx.1
+    omega
+
+/-- arguments written with `quote` or `dqrepr` always come back as strings of Unicode scalar values
+(possibly *different* strings for `dqrepr`, see `dqrepr_reread`) -/
+theorem writers_scalar (x : Str) : (∃ y : Str, toCps x = toCps y) ∧ ∃ y : Str, reread (toCps x) = toCps y := by
+  refine ⟨⟨x, rfl⟩, ?_⟩
+  unfold reread
+  cases latin1? (toCps x) with
+  | none => exact ⟨x, rfl⟩
+  | some bs =>
+    simp only
+    cases utf8Decode? bs with
+    | none => exact ⟨x, rfl⟩
+    | some s => exact ⟨s, rfl⟩
 
 end C13
